@@ -18,6 +18,10 @@ fi
 out="$B/htsim.test"
 extra=""
 if [ "${1:-}" = "race" ]; then out="$B/htsim.race.test"; extra="-race"; fi
-go1.26.8 test -c -vet=off -ldflags=-checklinkname=0 $modflag $extra -tags verif -overlay "$B/overlay/overlay.json" -o "$out.new" . 2>"$B/build.log" || { cat "$B/build.log" >&2; exit 2; }
+go1.26.8 test -c -vet=off -ldflags=-checklinkname=0 $modflag $extra -tags verif -overlay "$B/overlay/overlay.json" -o "$out.new" . 2>"$B/build.log" || {
+  cat "$B/build.log" >&2
+  # diagnostics for environment trouble (module cache, disk, identity)
+  { echo "--- build diagnostics"; id; echo "HOME=$HOME PWD=$PWD"; go1.26.8 env GOMODCACHE GOCACHE GOFLAGS GOPATH GOPROXY GONOSUMDB GOFLAGS GOTOOLCHAIN; ls -ld "$(go1.26.8 env GOMODCACHE)" "$(go1.26.8 env GOMODCACHE)/cache/download" 2>&1; ls "$(go1.26.8 env GOMODCACHE)" 2>&1 | head -5; ls "$(go1.26.8 env GOMODCACHE)/cache/download/github.com/op/go-logging/@v" 2>&1 | head; df -h / /tmp "$B" 2>&1 | tail -4; git -C /repo status --short 2>&1 | head -5; git -C /repo log --oneline 2>&1 | head -2; } >&2
+  exit 2; }
 mv -f "$out.new" "$out"
 exit 0
